@@ -2,7 +2,7 @@
 rejection exists (live, with the RFC's constants) in every decoder copy that can see the construct;
 the decoder's constant tables are the RFC's."""
 from .. import tables, decoders
-from ..ctx import prog
+from ..ctx import prog, Z
 
 EXPLANATION = (
     "ATOM: each rejection of the RFC table (message -> guarding atoms with the RFC constants) is present and live, "
@@ -75,6 +75,8 @@ def inflate_table_rules(ck, P):
 def run(ck):
     P = prog("K1")
     ck.configs.add("K1")
+    from .. import linear as _lin
+    ck.floor("SIB/same-terms-same-threshold", _lin.same_threshold(ck, P, [f for f in sorted(P.fns.values(), key=lambda f: f.path) if f.path.startswith(Z + "inflate::")]), 1)
     n = decoders.check_rejections(ck, P, "ATOM/rejection")
     ck.floor("ATOM/rejection", n, 40)
     decoders.check_table_fields(ck, P, "ATOM/header-fields")
